@@ -54,6 +54,7 @@ def parseOp : List String → Option (Bool × Op)
   | ["newrun"] => some (false, .newRun)
   | ["stoprun"] => some (false, .stopRun)
   | ["reconnect"] => some (false, .reconnect)
+  | ["dupstart"] => some (false, .dupStart)
   | ["tags", mr, ups] =>
     match parseMsgRun mr, parseUpdates ups with
     | some mr, some ups => some (false, .tags mr ups)
@@ -68,6 +69,7 @@ def parseOp : List String → Option (Bool × Op)
           `newrun`                                                    RunStartedMsg with a fresh run id
           `stoprun`                                                   RunStoppedMsg of the active run
           `reconnect`                                                 engine_disconnected, then RegisterEngineMsg
+          `dupstart`                                                  the RunStartedMsg of the active run delivered again
           `policy <keepNewer 0|1> <strict 0|1>`                       (first line of a case) which variant of the two
                                                                       incidental choices to run; answer `ok`; default = as is
           `tags <run ordinal | none> <updates | ->`                   TagsUpdatedMsg; update = `<name>|<value token>|<time in 1/8 s>`
